@@ -21,24 +21,26 @@ open PdfVerif PdfVerif.Content PdfVerif.Interp PdfVerif.Gen.Utils PdfVerif.Gen.I
 /-- **One instruction** (operands + operator) of the domain: the simulation relation `R` between
 the interpreter state and the text-model state is preserved and the same glyphs are reported,
 whatever form runners are used as long as they agree. -/
-theorem C05_step (env : Env) (rfM : Form → Matrix → Res → List Glyph × Bool)
-    (rfS : Form → GS → Res → Option (List Glyph)) (hrf : Agree rfM rfS) (m : MState) (s s' : SState) (i : Instr)
+theorem C05_step (env : Env) (rfM : Form → MState → List Glyph × Bool)
+    (rfS : Form → GS → Res → Option (List Glyph)) (hrf : Agree env rfM rfS) (m : MState) (s s' : SState) (i : Instr)
     (gl : List Glyph) (hR : R env m s) (h : step env rfS s i = some (s', gl)) :
     R env (execToks env rfM m i.toks).1 s' ∧ (execToks env rfM m i.toks).2 = gl :=
   step_sim env rfM rfS hrf m s s' i gl hR h
 
-/-- **Form XObjects**, any nesting: whatever graphics state the caller hands over, a form the
-text model gives a meaning to (`q Matrix cm … Q` with its own resources) produces the same glyphs
-in the interpreter, within the nesting budget. -/
-theorem C05_forms (env : Env) (fuel : Nat) (fm : Form) (gs : GS) (res : Res) (gl : List Glyph)
-    (h : TextModel.runForm env fuel fm gs res = some gl) :
-    Interp.runForm env fuel fm gs.ctm res = (gl, true) :=
-  runForm_agree env fuel fm gs res gl h
+/-- **Form XObjects**, any nesting: a form inherits the caller's graphics state (8.10.1). From
+related initial states — the form interpreter `do_Do` prepares (Matrix × CTM, the caller's text
+state, colours and colour spaces, empty stacks) against the caller's graphics state with
+`Matrix cm` applied — a form the text model gives a meaning to produces the same glyphs in the
+interpreter, within the nesting budget. -/
+theorem C05_forms (env : Env) (fuel : Nat) (fm : Form) (m0 : MState) (gs : GS) (res : Res) (gl : List Glyph)
+    (hR : R env m0 ⟨gs, [], none, res⟩) (h : TextModel.runForm env fuel fm gs res = some gl) :
+    Interp.runForm env fuel fm m0 = (gl, true) :=
+  runForm_agree env fuel fm m0 gs res gl hR h
 
 /-- **Splitting the page content into several streams** (at token boundaries) changes nothing:
 interpreting the streams one after the other is interpreting their concatenation — same final
 state (operand stack included), same glyphs. -/
-theorem C05_split (env : Env) (rf : Form → Matrix → Res → List Glyph × Bool) (st : MState)
+theorem C05_split (env : Env) (rf : Form → MState → List Glyph × Bool) (st : MState)
     (streams : List (List Tok)) :
     execStreams env rf st streams = execToks env rf st streams.flatten := by
   induction streams generalizing st with
@@ -68,14 +70,15 @@ theorem C05_program (env : Env) (fuel : Nat) (ctm : Matrix) (res : Res) (streams
   simp only [List.map_nil, List.nil_append] at hsound
   unfold Interp.runPage
   rw [C05_split, hsound]
-  exact stream_sim env (Interp.runForm env fuel) (TextModel.runForm env fuel) (runForm_agree env fuel) ctm res is gl h
+  exact stream_sim env (Interp.runForm env fuel) (TextModel.runForm env fuel) (runForm_agree env fuel)
+    (MState.init ctm res) (GS.init ctm) res is gl (R_init env ctm res) h
 
 /-! ## The caller's state after a form is what it was before -/
 
 /-- **Form frame** (interpreter): after `Do` the interpreter state of the caller is unchanged —
 CTM, text state, colours, colour spaces, graphics stack, operand stack, resources — and the device
 CTM is the caller's CTM again; only the budget flag can change. -/
-theorem C05_form_frame (env : Env) (rf : Form → Matrix → Res → List Glyph × Bool) (m : MState) (x : Obj) :
+theorem C05_form_frame (env : Env) (rf : Form → MState → List Glyph × Bool) (m : MState) (x : Obj) :
     (call env rf m .Do [x]).1 = { m with dctm := (call env rf m .Do [x]).1.dctm, fuelOk := (call env rf m .Do [x]).1.fuelOk } ∧
     (m.dctm = m.ctm → (call env rf m .Do [x]).1.dctm = m.ctm) := by
   cases x with
@@ -112,7 +115,7 @@ theorem C05_form_frame_spec (env : Env) (rf : Form → GS → Res → Option (Li
 of the wrong type (no booleans, no excess operands) leaves the interpreter exactly in the state it
 was in and shows nothing.  `gs` only supplies the current number of colour components for
 `sc/scn/SC/SCN`. -/
-theorem C05_illtyped (env : Env) (rf : Form → Matrix → Res → List Glyph × Bool) (m : MState) (gs : GS) (i : Instr)
+theorem C05_illtyped (env : Env) (rf : Form → MState → List Glyph × Bool) (m : MState) (gs : GS) (i : Instr)
     (tys : List Ty) (hsig : sig gs i.op = some tys) (hlen : i.args.length ≤ tys.length) (hb : NoBool i.args)
     (hw : wellTyped tys i.args = false) (hargs : m.argstack = [])
     (hn : m.ncs.2 = gs.fillN) (hs : m.scs.2 = gs.strokeN)
@@ -179,11 +182,9 @@ theorem C05_program_any_budget (env : Env) (fuel k : Nat) (ctm : Matrix) (res : 
 
 private def exFont : Font := ⟨"VfD0", 32, [250, 500, 504, 508], 300, -200⟩
 
-/-- A form: prologue, then `BT 1 2 Td (!) Tj ET`. -/
+/-- A form that relies on what it inherits (font, size, fill colour): `BT 1 2 Td (!) Tj ET`. -/
 private def exFormProg : List Instr :=
-  [⟨.g, [.num (1/2)]⟩, ⟨.G, [.num 0]⟩, ⟨.Tc, [.num 0]⟩, ⟨.Tw, [.num 0]⟩, ⟨.Tz, [.num 100]⟩, ⟨.TL, [.num 0]⟩,
-   ⟨.Tf, [.name "F1", .num 8]⟩, ⟨.Tr, [.num 0]⟩, ⟨.Ts, [.num 0]⟩,
-   ⟨.BT, []⟩, ⟨.Td, [.num 1, .num 2]⟩, ⟨.Tj, [.str [33]]⟩, ⟨.ET, []⟩]
+  [⟨.BT, []⟩, ⟨.Td, [.num 1, .num 2]⟩, ⟨.Tj, [.str [33]]⟩, ⟨.ET, []⟩]
 private def exForm : Form := ⟨some (2, 0, 0, 2, 50, 60), some ⟨[("F1", 0)], []⟩, exFormProg.flatMap Instr.toks⟩
 private def exEnv : Env := ⟨[exFont], [exForm]⟩
 private def exRes : Res := ⟨[("F1", 0)], [("X0", 0)]⟩
@@ -192,7 +193,8 @@ private def exRes : Res := ⟨[("F1", 0)], [("X0", 0)]⟩
 /x 5 Td 1 2 (") " [-100 (#)] TJ ET` — a form with a Matrix, then caller text; Tc/Tw/Tz; an
 ill-typed `Td`; the `"` operator; a TJ adjustment. -/
 private def exProg : List Instr :=
-  [⟨.q, []⟩, ⟨.cm, [.num 1, .num 0, .num 0, .num 1, .num 10, .num 20]⟩, ⟨.Do, [.name "X0"]⟩, ⟨.Q, []⟩,
+  [⟨.Tf, [.name "F1", .num 8]⟩, ⟨.rg, [.num 1, .num 0, .num (1/2)]⟩,
+   ⟨.q, []⟩, ⟨.cm, [.num 1, .num 0, .num 0, .num 1, .num 10, .num 20]⟩, ⟨.Do, [.name "X0"]⟩, ⟨.Q, []⟩,
    ⟨.BT, []⟩, ⟨.Tf, [.name "F1", .num 10]⟩, ⟨.Tm, [.num 1, .num 0, .num 0, .num 1, .num 100, .num 700]⟩,
    ⟨.Tc, [.num 2]⟩, ⟨.Tw, [.num 3]⟩, ⟨.Tz, [.num 50]⟩, ⟨.TL, [.num 12]⟩,
    ⟨.Tj, [.str [33, 32]]⟩, ⟨.Td, [.name "x", .num 5]⟩, ⟨.dquote, [.num 1, .num 2, .str [34]]⟩,
@@ -203,13 +205,17 @@ example : (TextModel.runPage exEnv 3 MATRIX_IDENTITY exRes exProg).map List.leng
 
 /-- Its token sequence, split into two streams in the middle of the operands of `cm`, parses back
 to the program (hypothesis `hparse`). -/
-example : parseInstrs [(exProg.flatMap Instr.toks).take 4, (exProg.flatMap Instr.toks).drop 4].flatten []
+example : parseInstrs [(exProg.flatMap Instr.toks).take 11, (exProg.flatMap Instr.toks).drop 11].flatten []
     = (exProg, []) := by decide +kernel
 
 /-- The glyph origins the text model assigns: the form's glyph under `Matrix × cm × CTM`, then the
 caller's line at (100,700) with `tx = (w0·Tfs + Tc + Tw)·Th`, then the next line 12 below. -/
 example : (TextModel.runPage exEnv 3 MATRIX_IDENTITY exRes exProg).map (fun l => l.map (fun g => (g.m.2.2.2.2.1, g.m.2.2.2.2.2)))
     = some [(62, 84), (100, 700), (207 / 2, 700), (100, 688), (5201 / 50, 688)] := by decide +kernel
+
+/-- The form's glyph carries the font size 8 and the fill colour it inherited from the page. -/
+example : (TextModel.runPage exEnv 3 MATRIX_IDENTITY exRes exProg).map (fun l => l.head?.map (fun g => (g.size, g.col)))
+    = some (some (16, some [1, 0, 1/2])) := by decide +kernel
 
 /-- An instruction with an ill-typed operand that meets the hypotheses of `C05_illtyped`. -/
 example : sig (GS.init MATRIX_IDENTITY) Op.Td = some [Ty.num, Ty.num] ∧
